@@ -33,8 +33,11 @@
 (*   CanonSame       p denotes a node => Canon(p) denotes the same node    *)
 (*                   (all paths, symbolic links included)                  *)
 (*   CanonIdem       Canon(Canon(p)) = Canon(p)                            *)
-(*   CanonUnique     two paths denoting one node have one canonical name   *)
-(*                   (what once-only inclusion relies on)                  *)
+(*   CanonNoLink     the canonical name crosses no symbolic link           *)
+(*   (that two paths denoting one node have ONE canonical name - what      *)
+(*   once-only inclusion relies on - holds by construction here, Canon     *)
+(*   being a function of the node; on the real class it is checked by the  *)
+(*   binding: equal inode => equal make_canonical() string)                *)
 (***************************************************************************)
 EXTENDS Naturals, Sequences, TLC
 
